@@ -116,9 +116,13 @@ def expected(cols, lids):
         c = cols[p][j]
         return [((3 * c + p) % 13, Fraction(p + 1) + Fraction(j, 8))] + ([((3 * c + p + 5) % 13, Fraction(-j))] if c % 2 else [])
     def rr(g):
-        e = sorted(x for (p, j) in contrib.get(g, []) for x in rrow(p, j))
-        return [len(e)] + [v for cv in e for v in cv]
-    E["RR"] = [[v for g in lids[q] for v in rr(g)] for q in range(P)]
+        d = {}
+        for (p, j) in contrib.get(g, []):
+            for (cc, v) in rrow(p, j): d[cc] = d.get(cc, Fraction(0)) + v
+        return sorted((cc, v) for cc, v in d.items() if v != 0)
+    # rows arriving for one owned index are compared as the operator they represent (entries of one column added up, zeros
+    # dropped): the standard package concatenates the rows, the node-aware one adds entries of equal column on the way
+    E["RR"] = [[rr(g) for g in lids[q]] for q in range(P)]
     yi = lambda p, j: (p + 1) * 100 + j
     ysel = lambda p, j: -1 if (cols[p][j] + p) % 3 == 0 else cols[p][j]
     E["RS"] = [[1000 * g + sum(Fraction(yi(p, j), 4) for (p, j) in contrib.get(g, [])) for g in lids[q]] for q in range(P)]
@@ -131,6 +135,22 @@ def expected(cols, lids):
     E["RB"] = [[v for g in lids[q] for v in (sum(yi(p, j) for (p, j) in contrib.get(g, [])),
                                                  sum(Fraction(yi(p, j), 2) for (p, j) in contrib.get(g, [])))] for q in range(P)]
     return E
+
+
+def rows_eq(a_toks, rows):
+    """a_toks: 'k c v c v ... k c v ...' ; rows: canonical [(col, value)] per owned index"""
+    pos = 0; got = []
+    try:
+        for _ in rows:
+            k = int(a_toks[pos]); pos += 1; d = {}
+            for _ in range(k):
+                cc = int(a_toks[pos]); v = nums.parse_num(a_toks[pos + 1]); pos += 2
+                if isinstance(v, str): return False
+                d[cc] = d.get(cc, Fraction(0)) + Fraction(v)
+            got.append(sorted((cc, v) for cc, v in d.items() if v != 0))
+    except (IndexError, ValueError): return False
+    if pos != len(a_toks): return False
+    return all(len(g) == len(r) and all(a[0] == b[0] and nums.close(a[1], b[1]) for a, b in zip(g, r)) for g, r in zip(got, rows))
 
 
 def vec_eq(a_toks, b_vals):
@@ -157,7 +177,7 @@ def judge_pkg(ctx, c, res, pre, cols, lids, tag):
             ctx.signal("O", "%s:%s:missing" % (tag, pre + key), "no output for %s" % (pre + key), case=c["line"]); ok = False; continue
         ranks = split_ranks(got)
         for p in range(P):
-            if p >= len(ranks) or not vec_eq(ranks[p], exp[p]):
+            if p >= len(ranks) or not (rows_eq(ranks[p], exp[p]) if key == "RR" else vec_eq(ranks[p], exp[p])):
                 kind = "forward" if key.startswith("F") else "reverse"
                 ctx.signal("O", "%s:%s%s:%s" % (tag, "derived_" if pre else "", kind, key),
                            "rank %d: implementation %s, required %s" % (p, " ".join(ranks[p]) if p < len(ranks) else None,
